@@ -43,7 +43,7 @@ related() { # property id -> checks to run
 }
 for d in /verif/seeded/C*/; do
   sid=$(basename $d); pid=${sid%%-*}
-  case $sid in C07-c|C19-b|C02-e) continue;; esac
+  case $sid in C07-c|C19-b|C02-e|C01-a) continue;; esac
   p=$d/patch.diff; [ -f $d/patch_rebased_on_F2.diff ] && p=$d/patch_rebased_on_F2.diff; [ -f $d/patch_rebased_on_F15.diff ] && p=$d/patch_rebased_on_F15.diff
   run $p $(related $pid)
 done
@@ -56,7 +56,7 @@ for p in /verif/mutants/*.patch; do
   [ -n "$c" ] && run $p $c
 done
 # behaviour-preserving refactors: every check must stay silent (exit 0)
-for p in $(for d in /verif/neutral/N*/; do if [ -f $d/patch_rebased_on_F15.diff ]; then echo $d/patch_rebased_on_F15.diff; else echo $d/patch.diff; fi; done) /verif/neutral/B-C18c/patch.diff /verif/neutral/B-C12i/patch.diff /verif/neutral/B-C06i/patch.diff /verif/seeded/C07-c/patch.diff /verif/seeded/C19-b/patch.diff /verif/seeded/C02-e/patch.diff; do
+for p in $(for d in /verif/neutral/N*/; do if [ -f $d/patch_rebased_on_F15.diff ]; then echo $d/patch_rebased_on_F15.diff; else echo $d/patch.diff; fi; done) /verif/neutral/B-C18c/patch.diff /verif/neutral/B-C12i/patch.diff /verif/neutral/B-C06i/patch.diff /verif/seeded/C01-a/patch_rebased_on_F2.diff /verif/seeded/C07-c/patch.diff /verif/seeded/C19-b/patch.diff /verif/seeded/C02-e/patch.diff; do
   run $p C01 C02 C03 C04 C05 C06 C07 C08 C09 C10 C11 C12 C13 C14 C15 C16 C17 C18 C19
 done
 git -C /repo worktree remove --force $M/repo; rm -rf $M/verif/.target
